@@ -1,6 +1,6 @@
 use super::*;
 
-// @harness pm1_stage2_table unit=pollard_pm1::STAGE2_PARAMS props=C20,C16
+// @harness pm1_stage2_table unit=pollard_pm1::STAGE2_PARAMS props=C20,C16,C03
 #[kani::proof]
 fn pm1_stage2_table_ok() {
     // every row of the P-1 stage-2 table: d1 multiple of 6, d2 a power of two large enough for the FFT product
@@ -27,7 +27,7 @@ fn pm1_stage2_select_ok() {
     assert!(!((STAGE2_PARAMS[j].0 - b2).abs() < (r.0 - b2).abs()));
 }
 
-// @harness pm1_stage2_select_rows unit=pollard_pm1::stage2_params props=C20,C16
+// @harness pm1_stage2_select_rows unit=pollard_pm1::stage2_params props=C20,C16,C03
 #[kani::proof]
 #[kani::unwind(34)]
 fn pm1_stage2_select_rows_ok() {
